@@ -1,16 +1,19 @@
 """C06 -- the stability checker answers True exactly for matchings without a blocking pair (DESIGN.md section 5, C06).
 
-R1 decision table: the per-pair verdict of check_stability is evaluated (finite evaluator, 3-valued, Python's
-   short-circuit order) on every feasible valuation of the atomic comparisons and compared with the blocking-pair
-   definition; any TypeError/AttributeError path is a violation ("always returns a boolean").
-R2 helper schemas (count per project/lecturer skipping None; worst = max rank_lecturer, None when empty).
-R3 quantification: all rows x all pairs; False on the first hit, True after the loops.
+R1 decision table: the effect tree of check_stability (helpers and closures inlined, local assignments kept as
+   evaluation points) is executed by the finite term evaluator for one representative (student row, acceptable pair)
+   on every feasible valuation of the atomic comparisons, Python's short-circuit order, and compared with the
+   blocking-pair definition; any TypeError / AttributeError / KeyError / ValueError path is a violation ("always
+   returns a boolean").  Atoms are recognised by what a term computes (its provenance), not by its name.
+R2 structure schemas recognised from the computing term: count per project/lecturer skipping None; worst = max
+   rank_lecturer, None when empty; groups of assignees (list or dict) with len()/max() over them.
+R3 quantification: all rows x all pairs of the row; False at the first hit, True after the loops (or all()/not any()
+   over the same comprehension); a loop over a proper part of the rows / of a row is a violation.
 R4 the caller prints exactly this value for the per-student list aligned with `pairs`."""
 import ast, itertools
 
 from ..terms import *
 from ..absint import Interp, iter_effects
-from ..finite import FiniteEval, NOATOM, Stop, Raises
 from ..loader import AnalysisError
 from .. import lp
 
@@ -68,9 +71,20 @@ def classify_helper(repo, f):
     """-> ('COUNT'|'WORST', 'P'|'L', None) or ('BAD', sort, why) from the helper's effect summary; raises Unknown when the
     helper is not a scatter-fold at all.  Shapes are normalised (shared sub-helpers, index functions, merged or split
     first-or-max updates, `is None` / `== None`, early continue)."""
-    import itertools
     it = Interp(repo)
     effs, rv = it.run(f, {}, selfterm=lp.MODEL)
+    return classify_term(rv, S(f.params[1]), f.name)
+
+
+class _Named:
+    def __init__(self, name, params):
+        self.name, self.params = name, params
+
+
+def classify_term(rv, param, name='<term>'):
+    """classification of a per-agent structure computed from the assignment list `param` (see classify_helper)"""
+    import itertools
+    f = _Named(name, [None, param[1] if param[0] == 'sym' else '?'])
     if rv[0] != 'accum':
         raise Unknown('helper %s does not return a scatter-fold' % f.name)
     pre, entries = rv[1], rv[2]
@@ -84,7 +98,6 @@ def classify_helper(repo, f):
         raise Unknown('helper %s: result is not one slot per project/lecturer' % f.name)
     sort, init = size
     keyattr = 'project_index' if sort == 'P' else 'lecturer_index'
-    param = S(f.params[1])
     def notnone(b):
         return [NOT(CMP('Eq', b, NONE)), CMP('NotEq', b, NONE), NOT(CMP('Is', b, NONE)), CMP('IsNot', b, NONE)]
     def split_guard(g, b):
@@ -154,216 +167,639 @@ def classify_helper(repo, f):
     raise Unknown('helper %s: unknown initial slot value %s' % (f.name, show(init)))
 
 
+def empty_lists_len(t):
+    if t[0] == 'comp' and len(t[1]) == 1 and t[2] == ('list', ()) and t[1][0][1] == TRUE:
+        d = t[1][0][0][3]
+        if d[0] == 'call' and d[1] == S('range') and len(d[2]) == 1:
+            return d[2][0]
+    return None
+
+
 def run(rep, repo, tier):
+    return run_terms(rep, repo, tier)
+
+
+# ======================================================================================================================
+# term-level decision table (E5b): the whole function body is evaluated on the effect tree for one representative
+# (student row, acceptable pair) per valuation; every per-agent structure is recognised from the term that computes it.
+# ======================================================================================================================
+from ..termeval import TermEval, Abs, Leave, Raises as TRaises, NOATOM as TNOATOM, order_cmp, FLIP
+from ..canon import replace
+from ..shapes import notnone_forms
+
+OWN = {'P': 'project_index', 'L': 'lecturer_index'}
+SORT_OF_LEN = {'num_projects': 'P', 'num_lecturers': 'L'}
+UQ_ATTR = {'proj_upper_quotas': 'P', 'lec_upper_quotas': 'L'}
+LEC_KEYS = ('lecturer_index', 'lecturerID')
+PROJ_KEYS = ('project_index', 'projectID')
+
+
+class BadStructure(Exception):
+    def __init__(self, rule, where, what, got):
+        self.rule, self.where, self.what, self.got = rule, where, what, got
+
+
+class KindError(Exception):
+    pass
+
+
+def slot_sort(n):
+    a = lp.model_attr(n)
+    if a in SORT_OF_LEN:
+        return SORT_OF_LEN[a]
+    if n[0] == 'call' and n[1] == S('len') and len(n[2]) == 1:
+        a = lp.model_attr(n[2][0])
+        if a in UQ_ATTR:
+            return UQ_ATTR[a]
+        if a == 'projects' or a == 'proj_lower_quotas':
+            return 'P'
+        if a == 'lecturers' or a == 'lec_lower_quotas':
+            return 'L'
+    return None
+
+
+class Structures:
+    """recognition (memoised per term) of the per-agent structures computed from the assignment list"""
+
+    def __init__(self, asg, names):
+        self.asg, self.names, self.memo = asg, names, {}
+
+    def name_of(self, t):
+        return self.names.get(t) or (t[3] if t[0] == 'accum' and len(t) > 3 and isinstance(t[3], str) else 'structure')
+
+    def classify(self, t):
+        if t not in self.memo:
+            self.memo[t] = self._classify(t)
+        r = self.memo[t]
+        if r is not None and r[0] == 'BAD':
+            raise BadStructure('C06.R2', self.names.get(('where', t)), r[2], r[3])
+        return r
+
+    def _groups(self, t):
+        """scatter-append of the assignees (or their lecturer ranks) by own index -> ('GROUP', container, elemkind, sort)"""
+        pre, entries = t[1], t[2]
+        container = None
+        if pre == ('dict', ()):
+            container, sort0 = 'dict', None
+        else:
+            n = empty_lists_len(pre)
+            if n is not None and slot_sort(n):
+                container, sort0 = 'list', slot_sort(n)
+        if container is None or len(entries) != 1:
+            return None
+        op, idx, val, ch = entries[0]
+        if op != 'appendidx' or len(ch) != 1 or ch[0][0][3] != self.asg:
+            return None
+        b, g = ch[0]
+        name = self.name_of(t)
+        if not (idx[0] == 'attr' and idx[1] == b and idx[2] in OWN.values()):
+            return ('BAD', None, 'groups %s are keyed by the own project / lecturer index of the assignee' % name, show(idx))
+        sort = 'P' if idx[2] == 'project_index' else 'L'
+        if sort0 is not None and sort0 != sort:
+            return ('BAD', sort0, 'groups %s have one slot per %s and are keyed by it' % (name, 'project' if sort0 == 'P' else 'lecturer'), show(idx))
+        if g not in notnone_forms(b):
+            return ('BAD', sort, 'groups %s collect every non-None entry of the assignment (and only those)' % name, 'guard ' + show(g)[:80])
+        if val == b:
+            return ('GROUP', container, 'pair', sort)
+        if val == A(b, 'rank_lecturer'):
+            return ('GROUP', container, 'rank', sort)
+        return ('BAD', sort, 'groups %s hold the assignees or their lecturer ranks' % name, show(val)[:80])
+
+    def _classify(self, t):
+        k = t[0]
+        if k == 'attr' and lp.model_attr(t) in UQ_ATTR:
+            return ('UQ', UQ_ATTR[lp.model_attr(t)])
+        if k == 'accum':
+            g = self._groups(t)
+            if g is not None:
+                return g
+            try:
+                r = classify_term(t, self.asg, self.name_of(t))
+            except Unknown:
+                return None
+            if r[0] == 'BAD':
+                return ('BAD', r[1], 'helper schema', r[2])
+            return (r[0], r[1])
+        if k == 'dictcomp' and len(t[1]) == 1 and t[1][0][1] == TRUE:
+            b = t[1][0][0]
+            d = b[3]
+            if d[0] == 'call' and d[1][0] == 'attr' and d[1][2] == 'items' and not d[2]:
+                G = self.classify(d[1][1]) if d[1][1][0] == 'accum' else None
+                if G and G[0] == 'GROUP' and G[1] == 'dict' and t[2] == I(b, C(0)):
+                    grp = I(b, C(1))
+                    v = t[3]
+                    ok = False
+                    if v[0] == 'call' and v[1] == S('max') and len(v[2]) == 1:
+                        a = v[2][0]
+                        if G[2] == 'rank' and a == grp:
+                            ok = True
+                        if G[2] == 'pair' and a[0] == 'comp' and len(a[1]) == 1 and a[1][0][1] == TRUE and a[1][0][0][3] == grp and a[2] == A(a[1][0][0], 'rank_lecturer'):
+                            ok = True
+                    if ok:
+                        return ('WORSTD', G[3])
+                    return ('BAD', G[3], 'worst-rank table is the maximum lecturer rank of every group', show(v)[:100])
+        return None
+
+
+class Q:
+    """value of any()/all() over the (row, pair) comprehension: truth for the representative pair + quantifier"""
+    def __init__(self, kind, val):
+        self.kind, self.val = kind, val
+
+
+class StabEval(TermEval):
+    def __init__(self, v, st, asg):
+        TermEval.__init__(self)
+        self.v, self.st, self.asg = v, st, asg
+        self.row = None          # (binder, mode)  mode: 'value' (binder is the row) | 'index' (binder is the student index)
+        self.pair = None         # binder of the examined pair
+        self.kind_errors = []
+        self.in_rows = 0
+        self.breaks = 0
+
+    # ---- values ---------------------------------------------------------------------------------
+    def truth(self, v):
+        if isinstance(v, Q):
+            return v.val
+        if isinstance(v, Abs):
+            if v.tag in ('obj',):
+                return True
+            if v.tag == 'group':
+                return not self.none(v.data[1])
+            if v.tag == 'elem' and v.data[0] == 'COUNT':
+                return not self.none(v.data[1])
+            if v.tag == 'elem' and v.data[0] == 'WORST':
+                raise Unknown('truth value of a worst rank (0 is not a rank, but the code relies on it)')
+            if v.tag == 'free':
+                return True if self.under(v.data) else None if False else self._free_truth(v.data)
+            raise Unknown('truth value of abstract value %r' % (v,))
+        return bool(v)
+
+    def _free_truth(self, sort):
+        # uq - count is 0 exactly when not undersubscribed (count <= uq by the precondition)
+        return self.under(sort)
+
+    def none(self, sort):
+        return self.v['WP_NONE' if sort == 'P' else 'WL_NONE']
+
+    def under(self, sort):
+        return self.v['PU' if sort == 'P' else 'LU']
+
+    def own_index(self, iv, sort, what):
+        """iv must be the examined pair's own index of that sort"""
+        if isinstance(iv, Abs) and iv.tag == 'attr' and iv.data[0] == 'pair':
+            if iv.data[1] == OWN[sort]:
+                return True
+            raise KindError('%s of sort %s indexed by pair.%s' % (what, 'project' if sort == 'P' else 'lecturer', iv.data[1]))
+        if isinstance(iv, Abs) and iv.tag == 'attr' and iv.data[0] == 'assigned':
+            raise Unknown('%s indexed by the index of the student\'s own assignment' % what)
+        raise Unknown('%s indexed by %r' % (what, iv))
+
+    def elem_of(self, cls, iv):
+        kind, sort = cls[0], cls[-1]
+        self.own_index(iv, sort, kind.lower() + ' structure')
+        if kind == 'WORST':
+            return None if self.none(sort) else Abs('elem', ('WORST', sort))
+        if kind in ('COUNT', 'UQ'):
+            return Abs('elem', (kind, sort))
+        if kind == 'GROUP':
+            if cls[1] == 'dict' and self.none(sort):
+                raise TRaises('KeyError: group of an agent without assignee')
+            return Abs('group', (cls[2], sort))
+        if kind == 'WORSTD':
+            if self.none(sort):
+                raise TRaises('KeyError: worst rank of an agent without assignee')
+            return Abs('elem', ('WORST', sort))
+        raise Unknown('element of %r' % (cls,))
+
+    def is_row_index(self, ix):
+        b, mode = self.row
+        if mode == 'value':
+            return ix == ('indexof', b)
+        return ix == b
+
+    def ev(self, t):
+        k = t[0]
+        if k == 'bvar':
+            if self.pair is not None and t == self.pair:
+                return Abs('obj', 'pair')
+            if self.row is not None and t == self.row[0]:
+                return Abs('row', self.row[1])
+            raise Unknown('free variable %s' % show(t))
+        if t == self.asg:
+            return Abs('asg')
+        if k == 'attr':
+            a = lp.model_attr(t)
+            if a == 'pairs':
+                return Abs('pairs')
+            c = self.st.classify(t) if a else None
+            if c:
+                return Abs('arr', c)
+            o = self.ev(t[1])
+            if o is None:
+                raise TRaises("AttributeError: 'NoneType' object has no attribute '%s'" % t[2])
+            if isinstance(o, Abs) and o.tag == 'obj':
+                return Abs('attr', (o.data, t[2]))
+            raise Unknown('attribute %s of %r' % (t[2], o))
+        if k in ('accum', 'dictcomp'):
+            c = self.st.classify(t)
+            if c:
+                return Abs('arr', c)
+            raise Unknown('structure not recognised: %s' % show(t)[:100])
+        if k == 'idx':
+            base, ix = t[1], t[2]
+            if base[0] == 'comp' and len(base[1]) == 1 and base[1][0][1] == TRUE and ix[0] != 'slice':
+                b = base[1][0][0]
+                d = b[3]
+                if d[0] == 'call' and d[1] == S('range') and len(d[2]) == 1:
+                    return self.ev(replace(base[2], b, ix))          # element ix of [f(z) for z in range(N)]
+                return self.ev(replace(base[2], b, I(d, ix)))         # element ix of [f(x) for x in D]  =  f(D[ix])
+            bv = self.ev(base)
+            if isinstance(bv, Abs) and bv.tag == 'asg':
+                if self.row is None or not self.is_row_index(ix):
+                    raise KindError('the assignment list is read at %s, not at the index of the student examined' % show(ix)[:60])
+                return None if self.v['UNASSIGNED'] else Abs('obj', 'assigned')
+            if isinstance(bv, Abs) and bv.tag == 'pairs':
+                if self.row is not None and self.row[1] == 'index' and ix == self.row[0]:
+                    return Abs('row', 'value')
+                raise Unknown('self.pairs[%s]' % show(ix)[:60])
+            if isinstance(bv, Abs) and bv.tag == 'arr':
+                return self.elem_of(bv.data, self.ev(ix))
+            if isinstance(bv, Abs) and bv.tag in ('tuple', 'list') and ix[0] == 'const' and isinstance(ix[1], int):
+                return bv.data[ix[1]]
+            raise Unknown('subscript of %r' % (bv,))
+        if k == 'indexof':
+            if self.row is not None and t[1] == self.row[0] and self.row[1] == 'value':
+                return Abs('rowidx')
+            raise Unknown('index of %s' % show(t[1])[:60])
+        if k == 'not':
+            x = self.ev(t[1])
+            if isinstance(x, Q):
+                return Q('all' if x.kind == 'any' else 'any', not x.val)
+            return not self.truth(x)
+        if k == 'cmp' and t[1] in ('In', 'NotIn'):
+            a, b = self.ev(t[2]), self.ev(t[3])
+            if isinstance(b, Abs) and b.tag == 'arr' and b.data[0] in ('WORSTD', 'GROUP') and (b.data[0] == 'WORSTD' or b.data[1] == 'dict'):
+                self.own_index(a, b.data[-1], 'key test')
+                r = not self.none(b.data[-1])
+                return r if t[1] == 'In' else not r
+            raise Unknown('membership %s' % show(t)[:80])
+        if k == 'bin' and t[1] in ('Sub', 'Add'):
+            a, b = self.ev(t[2]), self.ev(t[3])
+            def el(x, kind):
+                return isinstance(x, Abs) and x.tag == 'elem' and x.data[0] == kind
+            if t[1] == 'Sub' and ((el(a, 'UQ') and el(b, 'COUNT')) or (el(a, 'COUNT') and el(b, 'UQ'))):
+                if a.data[1] != b.data[1]:
+                    raise KindError('count of one sort subtracted from the upper quota of the other')
+                return Abs('free' if el(a, 'UQ') else 'negfree', a.data[1])
+            if t[1] == 'Add' and ((el(a, 'COUNT') and b == 1) or (a == 1 and el(b, 'COUNT'))):
+                return Abs('count+1', (a if el(a, 'COUNT') else b).data[1])
+            if isinstance(a, int) and isinstance(b, int):
+                return a - b if t[1] == 'Sub' else a + b
+            raise Unknown('arithmetic %s on %r, %r' % (t[1], a, b))
+        if k == 'call':
+            f = t[1]
+            if f == S('__until_break__') and len(t[2]) == 1:
+                return self.ev(t[2][0])         # the representative iteration is reached: the loop has not been left before it
+            if f == S('float') and len(t[2]) == 1 and t[2][0] in (C('inf'), C('Infinity'), C('+inf')):
+                return Abs('inf')
+            if f == S('len') and len(t[2]) == 1:
+                x = self.ev(t[2][0])
+                if isinstance(x, Abs) and x.tag == 'group':
+                    return Abs('elem', ('COUNT', x.data[1]))
+                if isinstance(x, Abs) and x.tag in ('tuple', 'list'):
+                    return len(x.data)
+                raise Unknown('len of %r' % (x,))
+            if f == S('max') and len(t[2]) == 1:
+                a = t[2][0]
+                kw = dict(t[3]) if len(t) > 3 and t[3] else {}
+                g = None
+                if a[0] == 'comp' and len(a[1]) == 1 and a[1][0][1] == TRUE and a[2] == A(a[1][0][0], 'rank_lecturer'):
+                    g = self.ev(a[1][0][0][3])
+                    if not (isinstance(g, Abs) and g.tag == 'group' and g.data[0] == 'pair'):
+                        raise Unknown('max over %r' % (g,))
+                else:
+                    g = self.ev(a)
+                    if not (isinstance(g, Abs) and g.tag == 'group' and g.data[0] == 'rank'):
+                        raise Unknown('max over %r' % (g,))
+                if self.none(g.data[1]):
+                    if 'default' in kw:
+                        return self.ev(kw['default'])
+                    raise TRaises('ValueError: max() arg is an empty sequence')
+                return Abs('elem', ('WORST', g.data[1]))
+            if f[0] == 'attr' and f[2] == 'get' and len(t[2]) in (1, 2):
+                d = self.ev(f[1])
+                if isinstance(d, Abs) and d.tag == 'arr' and (d.data[0] == 'WORSTD' or (d.data[0] == 'GROUP' and d.data[1] == 'dict')):
+                    sort = d.data[-1]
+                    self.own_index(self.ev(t[2][0]), sort, 'dictionary look-up')
+                    if self.none(sort):
+                        dflt = self.ev(t[2][1]) if len(t[2]) == 2 else None
+                        if d.data[0] == 'GROUP':
+                            if isinstance(dflt, Abs) and dflt.tag in ('tuple', 'list') and not dflt.data:
+                                return Abs('group', (d.data[2], sort))
+                            raise Unknown('default %r of a group look-up' % (dflt,))
+                        return dflt
+                    return Abs('group', (d.data[2], sort)) if d.data[0] == 'GROUP' else Abs('elem', ('WORST', sort))
+                raise Unknown('get on %r' % (d,))
+            if f in (S('any'), S('all')) and len(t[2]) == 1 and t[2][0][0] == 'comp':
+                return self.quantifier(f[1], t[2][0])
+            if f == S('bool') and len(t[2]) == 1:
+                return self.truth(self.ev(t[2][0]))
+            raise Unknown('call %s' % show(t)[:80])
+        return TermEval.ev(self, t)
+
+    # ---- comparisons ------------------------------------------------------------------------------
+    def compare(self, op, a, b):
+        v = self.v
+        def attr(x, who, name):
+            return isinstance(x, Abs) and x.tag == 'attr' and x.data == (who, name)
+        def el(x, kind):
+            return isinstance(x, Abs) and x.tag == 'elem' and x.data[0] == kind
+        # None tests
+        for x, y in ((a, b), (b, a)):
+            if y is None and isinstance(x, Abs):
+                if op in ('Eq', 'Is'):
+                    return False
+                if op in ('NotEq', 'IsNot'):
+                    return True
+                raise TRaises("TypeError: '%s' not supported between instances of 'int' and 'NoneType'" % OPS[op])
+        if a is None and b is None:
+            return order_cmp(op, 'eq') if op in ('Eq', 'Is', 'NotEq', 'IsNot') else self._raise_none(op)
+        for x, y, o in ((a, b, op), (b, a, FLIP.get(op, op))):
+            # student ranks
+            if attr(x, 'pair', 'rank_student') and attr(y, 'assigned', 'rank_student'):
+                return order_cmp(o, 'lt' if v['PREFERS'] else 'eq' if v['SEQ'] else 'gt')
+            if attr(x, 'pair', 'rank_student') and isinstance(y, Abs) and y.tag == 'inf':
+                return order_cmp(o, 'lt')
+            # lecturer rank against the worst assignee
+            if attr(x, 'pair', 'rank_lecturer') and el(y, 'WORST'):
+                s = y.data[1]
+                lt, eq = (v['PPREF'], v['PEQ']) if s == 'P' else (v['LPREF'], v['LEQ'])
+                return order_cmp(o, 'lt' if lt else 'eq' if eq else 'gt')
+            # count against upper quota (count <= quota by the precondition)
+            if el(x, 'COUNT') and el(y, 'UQ'):
+                if x.data[1] != y.data[1]:
+                    raise KindError('count of one sort compared with the upper quota of the other')
+                return order_cmp(o, 'lt' if self.under(x.data[1]) else 'eq')
+            if isinstance(x, Abs) and x.tag == 'count+1' and el(y, 'UQ'):
+                if x.data != y.data[1]:
+                    raise KindError('count of one sort compared with the upper quota of the other')
+                if o in ('LtE', 'Gt'):
+                    return order_cmp(o, 'lt' if self.under(x.data) else 'gt')
+                raise Unknown('count + 1 %s quota' % o)
+            if isinstance(x, Abs) and x.tag in ('free', 'negfree') and isinstance(y, int) and not isinstance(y, bool):
+                oo = o if x.tag == 'free' else FLIP.get(o, o)
+                yy = y if x.tag == 'free' else -y
+                # free = uq - count is an integer >= 0; > 0 iff undersubscribed
+                if yy == 0:
+                    return order_cmp(oo, 'gt' if self.under(x.data) else 'eq')
+                if yy == 1 and oo in ('Lt', 'GtE'):
+                    return order_cmp(oo, 'gt' if self.under(x.data) else 'lt') if oo == 'Lt' else self.under(x.data)
+                raise Unknown('free capacity %s %r' % (o, y))
+            if el(x, 'COUNT') and isinstance(y, int) and not isinstance(y, bool):
+                if y == 0:
+                    return order_cmp(o, 'eq' if self.none(x.data[1]) else 'gt')
+                if y == 1 and o in ('Lt', 'GtE'):
+                    return self.none(x.data[1]) if o == 'Lt' else not self.none(x.data[1])
+                raise Unknown('count %s %r' % (o, y))
+            # identity / same lecturer / same project
+            if isinstance(x, Abs) and x == Abs('obj', 'pair') and y == Abs('obj', 'assigned') and o in ('Eq', 'Is', 'NotEq', 'IsNot'):
+                return order_cmp(o, 'eq' if v['ISSELF'] else 'gt')
+            if isinstance(x, Abs) and isinstance(y, Abs) and x.tag == 'attr' and y.tag == 'attr' and x.data[0] == 'assigned' and y.data[0] == 'pair' \
+                    and o in ('Eq', 'NotEq'):
+                if x.data[1] in LEC_KEYS and y.data[1] in LEC_KEYS:
+                    if x.data[1] != y.data[1]:
+                        raise KindError('lecturer id compared with lecturer index (%s vs %s)' % (x.data[1], y.data[1]))
+                    return order_cmp(o, 'eq' if v['SAME'] else 'gt')
+                if x.data[1] in PROJ_KEYS and y.data[1] in PROJ_KEYS:
+                    if x.data[1] != y.data[1]:
+                        raise KindError('project id compared with project index (%s vs %s)' % (x.data[1], y.data[1]))
+                    return order_cmp(o, 'eq' if v['ISSELF'] else 'gt')      # (student, project) identifies the pair
+        return TermEval.compare(self, op, a, b)
+
+    def _raise_none(self, op):
+        raise TRaises("TypeError: '%s' not supported between instances of 'NoneType' and 'NoneType'" % OPS[op])
+
+    # ---- loops and quantifiers ---------------------------------------------------------------------
+    def row_mode(self, dom):
+        """is `dom` the sequence of all student rows?  -> 'value' | 'index' | None;  BadStructure for a proper part of it"""
+        if lp.model_attr(dom) == 'pairs':
+            return 'value'
+        if dom[0] == 'call' and dom[1] == S('range') and len(dom[2]) == 1:
+            n = dom[2][0]
+            if n[0] == 'call' and n[1] == S('len') and len(n[2]) == 1 and (lp.model_attr(n[2][0]) == 'pairs' or n[2][0] == self.asg):
+                return 'index'
+            if lp.model_attr(n) == 'num_students':
+                return 'index'
+        return None
+
+    def partial_rows(self, dom):
+        for x in walk(dom):
+            if lp.model_attr(x) == 'pairs' or x == self.asg:
+                return True
+        return False
+
+    def quantifier(self, kind, comp):
+        chain, val = comp[1], comp[2]
+        saved = (self.row, self.pair)
+        try:
+            ok = True
+            for b, g in chain:
+                self.enter(b)
+                if not self.truth(self.ev(g)):
+                    ok = False
+                    break
+            if self.row is None or self.pair is None:
+                raise Unknown('any/all over %s' % show(comp)[:80])
+            if not ok:
+                return Q(kind, kind == 'all')         # the representative pair is filtered out: neutral element
+            return Q(kind, self.truth(self.ev(val)))
+        finally:
+            self.row, self.pair = saved
+
+    def enter(self, b):
+        dom = b[3]
+        if self.row is None:
+            m = self.row_mode(dom)
+            if m is None:
+                if self.partial_rows(dom):
+                    raise BadStructure('C06.R3', None, 'every student (row of pairs) is examined', 'the loop runs over ' + show(dom)[:100])
+                raise Unknown('loop over %s' % show(dom)[:80])
+            self.row = (b, m)
+            return
+        if self.pair is None:
+            try:
+                d = self.ev(dom)
+            except Unknown:
+                d = None
+            if isinstance(d, Abs) and d.tag == 'row' and d.data == 'value':
+                self.pair = b
+                return
+            if self.partial_rows(dom) or contains(dom, lambda x: x == self.row[0]):
+                raise BadStructure('C06.R3', None, 'every acceptable pair of the student is examined', 'the loop runs over ' + show(dom)[:100])
+            raise Unknown('loop over %s' % show(dom)[:80])
+        raise Unknown('loop nested inside the pair loop: %s' % show(dom)[:80])
+
+    def has_verdict(self, effs):
+        for e, c in iter_effects(effs):
+            if e.kind in ('return', 'let', 'break'):
+                return True
+        return False
+
+    def execute(self, effs):
+        for e in effs:
+            k = e.kind
+            if k == 'if':
+                self.execute(e.then if self.truth(self.ev(e.cond)) else e.orelse)
+            elif k == 'return':
+                lv = Leave('return', self.ev(e.value) if e.value is not None else None)
+                lv.in_rows = self.in_rows
+                raise lv
+            elif k in ('continue', 'break'):
+                raise Leave(k)
+            elif k == 'raise':
+                raise TRaises('explicit raise')
+            elif k == 'let':
+                if self.in_rows:
+                    self.ev(e.value)          # evaluation point: errors surface here even when the value is never used
+            elif k == 'call':
+                if self.in_rows or any(x.kind == 'for' and self.loop_kind(x) for x, _ in iter_effects(e.body)):
+                    try:
+                        self.execute(e.body)
+                    except Leave as lv:
+                        if lv.kind != 'return':
+                            raise
+            elif k == 'for':
+                lk = self.loop_kind(e)
+                if lk is None:
+                    if self.has_returns(e.body) or self.in_rows:
+                        self.enter(e.binder)       # raises the precise reason
+                    continue                        # accumulation loop: its result is a term
+                saved = (self.row, self.pair)
+                self.in_rows += 1
+                try:
+                    self.enter(e.binder)
+                    try:
+                        self.execute(e.body)
+                    except Leave as lv:
+                        if lv.kind == 'return':
+                            raise
+                        if lv.kind == 'break':
+                            self.breaks += 1
+                finally:
+                    self.in_rows -= 1
+                    self.row, self.pair = saved
+            elif k in ('callo', 'expr', 'alias'):
+                pass
+            elif k == 'acc' and not self.in_rows:
+                pass
+            else:
+                raise Unknown('effect %s at %s outside the finite evaluator' % (k, e.loc))
+
+    def has_returns(self, effs):
+        return any(x.kind == 'return' for x, _ in iter_effects(effs))
+
+    def loop_kind(self, e):
+        dom = e.binder[3]
+        if self.row is None:
+            return self.row_mode(dom)
+        if self.pair is None:
+            try:
+                d = self.ev(dom)
+            except (Unknown, KindError, TRaises):
+                return None
+            return 'pair' if isinstance(d, Abs) and d.tag == 'row' and d.data == 'value' else None
+        return None
+
+
+def run_terms(rep, repo, tier):
     for k, v in RULES.items():
         rep.rule(k, v)
     rep.assumptions += ['the assignment respects project and lecturer upper quotas and assigns students to acceptable projects (precondition in the property)',
-                        'M(p) is a subset of M(l); a lecturer with an assignee of one of his projects has an assignee']
+                        'M(p) is a subset of M(l); a lecturer with an assignee of one of his projects has an assignee',
+                        'the rows of self.pairs list a student\'s acceptable pairs in non-decreasing rank_student (reader order): leaving a row early is sound once the pair examined is not preferred']
     f = repo.method('Model', 'check_stability')
-    fn = f.node
-    param = f.params[1]
-    # ---- structure: helper calls, row loop, pair loop ------------------------------------------------------
-    kinds = {}
-    helper_names = set()
-    rowloop = None
-    for s in fn.body:
-        if isinstance(s, ast.Assign) and len(s.targets) == 1 and isinstance(s.targets[0], ast.Name) and isinstance(s.value, ast.Call) \
-                and isinstance(s.value.func, ast.Attribute) and isinstance(s.value.func.value, ast.Name) and s.value.func.value.id == 'self':
-            h = repo.classes['Model'].get(s.value.func.attr)
-            if h is None:
-                continue
-            argok = len(s.value.args) == 1 and isinstance(s.value.args[0], ast.Name) and s.value.args[0].id == param
-            try:
-                k = classify_helper(repo, h)
-            except Unknown as u:
-                rep.inconclusive('C06.R2', h.where, 'helper is a recognised scatter-fold', got=str(u))
-                continue
-            if k[0] == 'BAD':
-                rep.fail('C06.R2', h.where, 'helper schema', got=k[2], construct='helper %s schema' % h.name)
-                continue
-            rep.check(argok, 'C06.R2', f.where, '%s is computed from the assignment being checked' % s.targets[0].id, got=ast.unparse(s.value), construct='helper argument %s' % ast.unparse(s.value))
-            rep.ok('C06.R2', h.where, '%s = %s per %s' % (h.name, 'assignment count (None skipped)' if k[0] == 'COUNT' else 'worst (max) lecturer rank, None when empty', 'project' if k[1] == 'P' else 'lecturer'))
-            kinds[s.targets[0].id] = (k[0], k[1])
-            helper_names.add(h.name)
-        elif isinstance(s, ast.For):
-            rowloop = s
-    need = {('COUNT', 'P'), ('COUNT', 'L'), ('WORST', 'P'), ('WORST', 'L')}
-    if set(kinds.values()) != need:
-        rep.inconclusive('C06.R2', f.where, 'the four helper results (count/worst x project/lecturer) are identified', got=kinds)
+    asg = S('ASG')
+    it = Interp(repo, {'emit_lets': True})
+    try:
+        effs, rv = it.run(f, {f.params[1]: asg}, selfterm=lp.MODEL)
+    except Unknown as u:
+        rep.inconclusive('C06.R1', f.where, 'check_stability is inside the interpreted fragment', got=str(u))
+        check_caller(rep, repo)
         return
-    if rowloop is None:
-        rep.inconclusive('C06.R3', f.where, 'row loop found', got='no for-loop')
-        return
-    # row loop: for i, row in enumerate(self.pairs)
-    it_ = rowloop.iter
-    okrow = (isinstance(it_, ast.Call) and isinstance(it_.func, ast.Name) and it_.func.id == 'enumerate' and ast.unparse(it_.args[0]) == 'self.pairs'
-             and isinstance(rowloop.target, ast.Tuple) and len(rowloop.target.elts) == 2)
-    if not okrow:
-        rep.inconclusive('C06.R3', f.where, 'the outer loop enumerates self.pairs', got=ast.unparse(rowloop.iter))
-        return
-    ivar, rowvar = rowloop.target.elts[0].id, rowloop.target.elts[1].id
-    pairloops = [s for s in rowloop.body if isinstance(s, ast.For)]
-    if len(pairloops) != 1 or not (isinstance(pairloops[0].iter, ast.Name) and pairloops[0].iter.id == rowvar and isinstance(pairloops[0].target, ast.Name)):
-        rep.inconclusive('C06.R3', f.where, 'the inner loop visits every pair of the row', got=[ast.unparse(s.iter) for s in pairloops])
-        return
-    pairloop = pairloops[0]
-    pvar = pairloop.target.id
-    rowpre = [s for s in rowloop.body if s is not pairloop]
-    rep.ok('C06.R3', f.where, 'all rows of self.pairs x all pairs of the row are examined', got='for %s, %s in enumerate(self.pairs): for %s in %s' % (ivar, rowvar, pvar, rowvar))
-    last = fn.body[-1]
-    rep.check(isinstance(last, ast.Return) and isinstance(last.value, ast.Constant) and last.value.value is True, 'C06.R3', f.where,
-              'True is returned after all pairs were examined', got=ast.unparse(last), want='return True', construct='final return ' + ast.unparse(last))
-    for r in ast.walk(fn):
-        if isinstance(r, ast.Return):
-            rep.check(isinstance(r.value, ast.Constant) and isinstance(r.value.value, bool), 'C06.R3', f.where, 'every return is a boolean', got=ast.unparse(r),
-                      construct='non-boolean return ' + ast.unparse(r), loc='%s:%d' % (f.relpath, r.lineno))
-    # ---- decision table --------------------------------------------------------------------------------------
-    UQ = {'proj_upper_quotas': 'P', 'lec_upper_quotas': 'L'}
-    OWN = {'P': 'project_index', 'L': 'lecturer_index'}
-    kind_errors = []
-
-    def make_eval(v):
-        def atom(n, env):
-            if isinstance(n, ast.Subscript) and isinstance(n.value, ast.Name) and n.value.id == param and isinstance(n.slice, ast.Name) and n.slice.id == ivar:
-                return None if v['UNASSIGNED'] else ('obj', 'assigned')
-            if isinstance(n, ast.Name) and n.id == pvar:
-                return ('obj', 'pair')
-            if isinstance(n, ast.Name) and n.id in kinds:
-                return ('array', kinds[n.id][0], kinds[n.id][1])
-            if isinstance(n, ast.Attribute) and isinstance(n.value, ast.Name) and n.value.id == 'self' and n.attr in UQ:
-                return ('array', 'UQ', UQ[n.attr])
-            return NOATOM
-        fe = FiniteEval(atom)
-        fe.resolver = lambda name: (repo.classes['Model'][name].node if name in repo.classes['Model'] and name not in helper_names else None)
-
-        def own(e):
-            """('elem', kind, sort, index value) with the pair's own index of that sort?"""
-            if not (isinstance(e, tuple) and e and e[0] == 'elem'):
-                return None
-            ix = e[3]
-            if not (isinstance(ix, tuple) and ix and ix[0] == 'attrof' and ix[1] == 'pair'):
-                kind_errors.append('array of sort %s indexed by %r' % (e[2], ix))
-                return None
-            if ix[2] != OWN[e[2]]:
-                kind_errors.append('%s array of sort %s indexed by pair.%s' % (e[1], e[2], ix[2]))
-                return None
-            return (e[1], e[2])
-
-        def hook(op, a, b):
-            def is_none_test(x, y):
-                return y is None and isinstance(x, tuple) and x and x[0] == 'elem'
-            # worst[...] == None
-            for x, y in ((a, b), (b, a)):
-                if is_none_test(x, y) and isinstance(op, (ast.Eq, ast.NotEq, ast.Is, ast.IsNot)):
-                    o = own(x)
-                    if o and o[0] == 'WORST':
-                        r = v['WP_NONE' if o[1] == 'P' else 'WL_NONE']
-                        return r if isinstance(op, (ast.Eq, ast.Is)) else not r
-            oa, ob = own(a) if isinstance(a, tuple) and a and a[0] == 'elem' else None, own(b) if isinstance(b, tuple) and b and b[0] == 'elem' else None
-            # count vs upper quota
-            if oa and ob and {oa[0], ob[0]} == {'COUNT', 'UQ'}:
-                if oa[1] != ob[1]:
-                    kind_errors.append('count of sort %s compared with upper quota of sort %s' % (oa[1], ob[1]))
-                    return NOATOM
-                under = v['PU' if oa[1] == 'P' else 'LU']
-                cnt_left = oa[0] == 'COUNT'
-                t = type(op)
-                if not cnt_left:
-                    t = {ast.Lt: ast.Gt, ast.Gt: ast.Lt, ast.LtE: ast.GtE, ast.GtE: ast.LtE}.get(t, t)
-                # count <= uq always holds (precondition); under <=> count < uq
-                return {ast.Lt: under, ast.GtE: not under, ast.Eq: not under, ast.NotEq: under, ast.LtE: True, ast.Gt: False}[t]
-            # rank_lecturer vs worst
-            def is_rl(x):
-                return isinstance(x, tuple) and x and x[0] == 'attrof' and x[1] == 'pair' and x[2] == 'rank_lecturer'
-            for x, y, flip in ((a, b, False), (b, a, True)):
-                oy = own(y) if isinstance(y, tuple) and y and y[0] == 'elem' else None
-                if is_rl(x) and oy and oy[0] == 'WORST':
-                    none = v['WP_NONE' if oy[1] == 'P' else 'WL_NONE']
-                    t = type(op)
-                    if t in (ast.Lt, ast.LtE, ast.Gt, ast.GtE) and none:
-                        raise Raises("TypeError: '<' not supported between instances of 'int' and 'NoneType'")
-                    if none:
-                        return t in (ast.NotEq, ast.IsNot)
-                    lt = v['PPREF' if oy[1] == 'P' else 'LPREF']
-                    eq = v['PEQ' if oy[1] == 'P' else 'LEQ']
-                    if flip:
-                        t = {ast.Lt: ast.Gt, ast.Gt: ast.Lt, ast.LtE: ast.GtE, ast.GtE: ast.LtE}.get(t, t)
-                    return {ast.Lt: lt, ast.LtE: lt or eq, ast.Gt: not (lt or eq), ast.GtE: not lt, ast.Eq: eq, ast.NotEq: not eq}[t]
-            # student ranks: pair.rank_student vs assigned.rank_student
-            def attr(x, who, name):
-                return isinstance(x, tuple) and x and x[0] == 'attrof' and x[1] == who and x[2] == name
-            for x, y, flip in ((a, b, False), (b, a, True)):
-                if attr(x, 'pair', 'rank_student') and attr(y, 'assigned', 'rank_student'):
-                    t = type(op)
-                    if flip:
-                        t = {ast.Lt: ast.Gt, ast.Gt: ast.Lt, ast.LtE: ast.GtE, ast.GtE: ast.LtE}.get(t, t)
-                    lt, eq = v['PREFERS'], v['SEQ']
-                    return {ast.Lt: lt, ast.LtE: lt or eq, ast.Gt: not (lt or eq), ast.GtE: not lt, ast.Eq: eq, ast.NotEq: not eq}[t]
-            # identity of the examined pair with the student's assignment
-            def isobj(x, who):
-                return isinstance(x, tuple) and x and x[0] == 'obj' and x[1] == who
-            if (isobj(a, 'pair') and isobj(b, 'assigned')) or (isobj(a, 'assigned') and isobj(b, 'pair')):
-                if isinstance(op, (ast.Is, ast.Eq)):
-                    return v['ISSELF']
-                if isinstance(op, (ast.IsNot, ast.NotEq)):
-                    return not v['ISSELF']
-            # same lecturer
-            LEC = ('lecturer_index', 'lecturerID')
-            for x, y in ((a, b), (b, a)):
-                if isinstance(x, tuple) and x and x[0] == 'attrof' and x[1] == 'assigned' and x[2] in LEC and isinstance(y, tuple) and y and y[0] == 'attrof' and y[1] == 'pair' and y[2] in LEC:
-                    if x[2] != y[2]:
-                        kind_errors.append('lecturer id compared with lecturer index (%s vs %s)' % (x[2], y[2]))
-                        return NOATOM
-                    if isinstance(op, (ast.Eq, ast.NotEq)):
-                        return v['SAME'] if isinstance(op, ast.Eq) else not v['SAME']
-            return NOATOM
-        fe.cmp_hook = hook
-        return fe
-
+    names = {}
+    for e, c in iter_effects(effs):
+        if e.kind == 'call' and isinstance(e.ret, tuple) and e.ret and e.ret[0] in ('accum', 'comp', 'dictcomp'):
+            names.setdefault(e.ret, getattr(e.target, 'name', None))
+            names.setdefault(('where', e.ret), getattr(e.target, 'where', None))
+    st = Structures(asg, names)
     vals = []
     for bits in itertools.product([False, True], repeat=len(ATOMS)):
         v = dict(zip(ATOMS, bits))
         if feasible(v):
             vals.append(v)
     rep.count('feasible_valuations', len(vals))
-    mism, errs, unknown = [], [], None
-    for v in vals:
-        fe = make_eval(v)
-        env = {'self': ('obj', 'self')}
-        verdict = None
+    short = lambda v: ', '.join(k for k in ATOMS if v[k]) or '(all false)'
+    mism, errs, kinds = [], [], []
+    # a row left (break) at the student's own pair: the pairs listed after it are never examined; with rows in rank order
+    # these include every pair of strictly worse rank, so valuations describing such a pair are unreachable
+    def breaks_at(v):
+        se = StabEval(v, st, asg)
         try:
-            fe.run(rowpre, env)
+            se.execute(effs)
+        except (Leave, TRaises, KindError, BadStructure, Unknown):
+            pass
+        return se.breaks > 0
+    own = [v for v in vals if v['ISSELF']]
+    stops_at_own = bool(own) and all(breaks_at(v) for v in own)
+    rep.extra['row_left_at_own_pair'] = stops_at_own
+    for v in vals:
+        if stops_at_own and not (v['UNASSIGNED'] or v['PREFERS'] or v['SEQ']):
+            continue
+        se = StabEval(v, st, asg)
+        blocks = spec_blocks(v)
+        try:
             try:
-                fe.run(pairloop.body, env)
-                verdict = 'continue'
-            except Stop as st:
-                if st.kind == 'return':
-                    verdict = 'returns ' + str(st.value)
-                elif st.kind == 'continue':
-                    verdict = 'continue'
-                elif st.kind == 'break':
-                    verdict = 'break'
-        except Raises as r:
+                se.execute(effs)
+                verdict = ('falls off the end', None)
+            except Leave as lv:
+                verdict = ('returns', lv.value, getattr(lv, 'in_rows', 0))
+        except TRaises as r:
             errs.append((v, str(r)))
             continue
+        except KindError as ke:
+            kinds.append(str(ke))
+            continue
+        except BadStructure as bs:
+            rep.fail(bs.rule, bs.where or f.where, bs.what, got=bs.got, construct=('helper schema' if bs.rule == 'C06.R2' else 'quantification') + ': ' + bs.what[:60])
+            check_caller(rep, repo)
+            return
         except Unknown as u:
-            unknown = str(u)
-            break
-        blocks = spec_blocks(v)
-        got_blocks = (verdict == 'returns False')
-        if verdict == 'break' and v['ISSELF'] and not blocks:
-            pass      # rows are sorted by rank: pairs after the student's own assignment are not preferred, so stopping here is sound
-        elif verdict == 'break' or verdict == 'returns True':
-            mism.append((v, verdict, blocks))
-        elif got_blocks != blocks:
-            mism.append((v, verdict, blocks))
-    if kind_errors:
-        rep.fail('C06.R1', f.where, 'every array is indexed by, and compared with, the value of its own sort', got=sorted(set(kind_errors))[0], want='project arrays by pair.project_index, lecturer arrays by pair.lecturer_index, index with index',
-                 construct='kind error: ' + sorted(set(kind_errors))[0])
-    if unknown:
-        rep.inconclusive('C06.R1', f.where, 'the per-pair verdict is inside the evaluated fragment', got=unknown)
-        return
-    short = lambda v: ', '.join(k for k in ATOMS if v[k]) or '(all false)'
+            rep.inconclusive('C06.R1', f.where, 'the per-pair verdict is inside the evaluated fragment', got=str(u))
+            check_caller(rep, repo)
+            return
+        val = verdict[1]
+        if isinstance(val, Q):
+            # not any(blocks) / all(not blocks):  a universally quantified "does not block"
+            if val.kind != 'all':
+                mism.append((v, 'returns any(...) of a per-pair test: true as soon as one pair passes', blocks))
+                continue
+            val = val.val
+        elif verdict[0] == 'returns' and val is True and verdict[2]:
+            mism.append((v, 'returns True before all pairs were examined', blocks))
+            continue
+        if verdict[0] != 'returns' or not isinstance(val, bool):
+            mism.append((v, '%s %r' % verdict[:2], blocks))
+            continue
+        if se.breaks and (v['UNASSIGNED'] or v['PREFERS']):
+            mism.append((v, 'leaves the row at a pair the student prefers to his assignment', blocks))
+            continue
+        if val != (not blocks):
+            mism.append((v, 'returns %s' % val, blocks))
+    if kinds:
+        rep.fail('C06.R1', f.where, 'every structure is indexed by, and compared with, the value of its own sort', got=sorted(set(kinds))[0],
+                 want='project structures by pair.project_index, lecturer structures by pair.lecturer_index, the assignment list by the student examined',
+                 construct='kind error: ' + sorted(set(kinds))[0])
     if errs:
         v, msg = errs[0]
         rep.fail('C06.R1', f.where, 'the check never fails: no comparison with an absent value on any feasible valuation (%d of %d valuations raise)' % (len(errs), len(vals)),
@@ -371,10 +807,23 @@ def run(rep, repo, tier):
     if mism:
         v, verdict, blocks = mism[0]
         rep.fail('C06.R1', f.where, 'verdict equals the blocking-pair definition on all %d feasible valuations (%d differ)' % (len(vals), len(mism)),
-                 got='{%s}: code %s, definition says the pair %s' % (short(v), verdict, 'blocks' if blocks else 'does not block'), want='return False iff the pair blocks',
+                 got='{%s}: code %s, definition says the pair %s' % (short(v), verdict, 'blocks' if blocks else 'does not block'), want='False iff some pair blocks',
                  construct='decision table differs on %d valuations' % len(mism))
-    if not errs and not mism and not kind_errors:
+    if not errs and not mism and not kinds:
         rep.ok('C06.R1', f.where, 'decision table: %d feasible valuations of %d atoms, verdict = definition, no error path' % (len(vals), len(ATOMS)), got='exhaustive')
+        used = sorted({'%s per %s' % (c[0], 'project' if c[-1] == 'P' else 'lecturer') for c in st.memo.values() if c and c[0] != 'BAD'})
+        need = {('P', 'cnt'), ('L', 'cnt'), ('P', 'worst'), ('L', 'worst')}
+        have = set()
+        for c in st.memo.values():
+            if not c or c[0] == 'BAD':
+                continue
+            if c[0] == 'COUNT' or c[0] == 'GROUP':
+                have.add((c[-1], 'cnt'))
+            if c[0] in ('WORST', 'WORSTD') or (c[0] == 'GROUP'):
+                have.add((c[-1], 'worst'))
+        rep.check(need <= have, 'C06.R2', f.where, 'the verdict reads assignment counts and worst ranks per project and per lecturer, each recognised from the term that computes it',
+                  got=used, construct='helper structures')
+        rep.ok('C06.R3', f.where, 'all rows of self.pairs x all pairs of the row are examined; False at the first blocking pair, True after the loops', got='loop domains = all rows x all pairs of the row')
     rep.extra['exhaustive_valuations'] = len(vals)
     check_caller(rep, repo)
 
